@@ -20,12 +20,22 @@ META = {
                   "regenerated from netref.py) is answered by a handler (bodies regenerated from protocol.py) that applies exactly the operation Python "
                   "would apply to the target, with the same operands, under every configuration that permits the names involved; that whole operation "
                   "sequences run through proxies and run on a twin give the same results, exception classes and final heap for any semantics of the "
-                  "objects themselves; and that buffered iteration returns exactly the target's sequence for every chunk/factor/max_chunk >= 1. "
-                  "Python's own object semantics is a Section parameter, so the distinguishing power for concrete types comes from the differential "
-                  "run: generated operation sequences on lists, dicts, sets, bytearrays, deques, iterators, generators, files and user classes, "
-                  "proxy versus twin, result and deep state compared after every step, wire requests compared with the model.",
+                  "objects themselves -- an operator with a value operand being the whole binary-operator protocol (own method, NotImplemented, the "
+                  "operand's reflected method, identity/TypeError); and that buffered iteration returns exactly the target's sequence for every "
+                  "chunk/factor/max_chunk >= 1. Three clauses are conditional on facts regenerated from the tree (failing reads asked once, __exit__ told "
+                  "the exception, reflected methods given the target), each with a refutation theorem for a tree without the fact. Class queries: the "
+                  "forwarded case (class unknown to the caller) and the by-name case (right iff a name means one class on both sides; refuted for "
+                  "namesakes) are theorems, __instancecheck__'s locally decided cases are a _partial theorem. Python's own object semantics is a "
+                  "Section parameter, so the distinguishing power for concrete types comes from the differential run: generated operation sequences "
+                  "on lists, dicts, sets, bytearrays, deques, iterators, generators, files, user classes, subclasses of int/float/str/tuple/frozenset, "
+                  "IntEnum members, families of same-named classes and class objects, proxy versus twin, result and deep state compared after every "
+                  "step, wire requests compared with the model.",
     "level_note": "Trusted: Coq kernel, pygen, extraction + driver, harness (target builders, canonicaliser, Python data-model table used to predict "
-                  "which special method an operation needs). CPython's object model is the oracle, not modelled.",
+                  "which special method an operation needs). CPython's object model is the oracle, not modelled. NOT covered by a theorem (harness only): "
+                  "the body of _handle_instancecheck (isinstance(x, p) for a proxy x of another class), the interpreter's multi-step fallbacks "
+                  "(iteration through __getitem__, x += a through __add__, reflected methods of proxy operands: each step is an operation of its own in "
+                  "the model), operations answered by the proxy itself (names in LOCAL_ATTRS: shown never to reach the target), C-level protocols "
+                  "(buffer, sq_concat of str/tuple, in-place slots), identity of classes across the connection (names only).",
     "technique": "Coq proof (finite case analysis over generated routing/handler tables, induction over operation sequences with an abstract object "
                  "semantics, induction on remaining items for the chunk schedule) + differential proxy/twin execution with wire-trace validation",
     "gen": ["netref", "consts", "protocol", "attrpolicy"],
@@ -314,6 +324,52 @@ class Plain(object):
     def get_b(self): return self.b
 
 
+# targets that inherit from an immutable built-in type: not values for the serializer (exact types only), so they are lent by
+# reference; their operators mostly come from the base type and decline (NotImplemented) operands of another numeric type
+import enum
+
+
+class MyInt(int):
+    pass
+
+
+class MyFloat(float):
+    pass
+
+
+class MyStr(str):
+    pass
+
+
+class MyTuple(tuple):
+    pass
+
+
+class MyFset(frozenset):
+    pass
+
+
+class Color(enum.IntEnum):
+    RED = 1
+    GREEN = 2
+    BLUE = 7
+
+
+class Money(object):
+    """a number-like user class whose operators decline what they do not know (NotImplemented), as the numeric tower asks"""
+
+    def __init__(self, cents): self.cents = cents
+    def __repr__(self): return "Money(%r)" % (self.cents,)
+    def __hash__(self): return hash(self.cents)
+    def __add__(self, o): return Money(self.cents + o.cents) if isinstance(o, Money) else NotImplemented
+    def __mul__(self, o): return Money(self.cents * o) if type(o) is int else NotImplemented
+    __rmul__ = __mul__
+    def __eq__(self, o): return self.cents == o.cents if isinstance(o, Money) else NotImplemented
+    def __lt__(self, o): return self.cents < o.cents if isinstance(o, Money) else NotImplemented
+
+
+SUBCLASSED = {"myint": MyInt, "myfloat": MyFloat, "mystr": MyStr, "mytuple": MyTuple, "myfset": MyFset}
+
 SHAPE_VARIANTS = ("bag", "row", "gate", "tally", "bare")
 
 
@@ -385,6 +441,22 @@ def shape_class(env, variant, fresh=False):
     return cache[variant]
 
 
+def importable(cls):
+    """is cls what a caller finds under cls's own module-qualified name?"""
+    found = sys.modules.get(cls.__module__)
+    for part in cls.__qualname__.split("."):
+        found = getattr(found, part, None)
+    return found is cls
+
+
+def namesake_importable(cls):
+    """the caller finds ANOTHER class under cls's module-qualified name"""
+    found = sys.modules.get(cls.__module__)
+    for part in cls.__qualname__.split("."):
+        found = getattr(found, part, None)
+    return isinstance(found, type) and found is not cls
+
+
 def is_shape(o):
     return getattr(type(o), "_c02_shape", False) is True
 
@@ -405,7 +477,7 @@ EXC = {"ValueError": ValueError, "KeyError": KeyError, "IndexError": IndexError,
        "RuntimeError": RuntimeError, "AttributeError": AttributeError, "StopIteration": StopIteration, "OSError": OSError,
        "LookupError": LookupError, "ArithmeticError": ArithmeticError, "AssertionError": AssertionError,
        "NotImplementedError": NotImplementedError, "Boom": Boom, "UnicodeDecodeError": lambda m: UnicodeDecodeError("utf8", b"x", 0, 1, m)}
-CLASSES = {"list": list, "dict": dict, "set": set, "bytearray": bytearray, "deque": collections.deque, "Vec": Vec, "CM": CM, "Seq": Seq,
+CLASSES = {"MyInt": MyInt, "MyStr": MyStr, "Color": Color, "float": float, "frozenset": frozenset, "Number": __import__("numbers").Number, "list": list, "dict": dict, "set": set, "bytearray": bytearray, "deque": collections.deque, "Vec": Vec, "CM": CM, "Seq": Seq,
            "Plain": Plain, "object": object, "int": int, "tuple": tuple, "Sequence": collections.abc.Sequence, "Iterable": collections.abc.Iterable,
            "Iterator": collections.abc.Iterator, "Sized": collections.abc.Sized, "Hashable": collections.abc.Hashable,
            "Callable": collections.abc.Callable, "Mapping": collections.abc.Mapping, "IOBase": io.IOBase, "str": str}
@@ -460,6 +532,14 @@ def build(spec, env):
         return Seq(spec[1])
     if k == "plain":
         return Plain(mk_value(spec[1], env), mk_value(spec[2], env))
+    if k in SUBCLASSED:       # ["myint", imm]: an instance of a subclass of the immutable type, built from a value of that type
+        return SUBCLASSED[k](mk_value(spec[1], env))
+    if k == "color":      # a fresh IntEnum per world side: members are singletons, twin and target must not be one object
+        if "color_class" not in env:
+            env["color_class"] = enum.IntEnum("Color", [("RED", 1), ("GREEN", 2), ("BLUE", 7)], module=__name__)
+        return env["color_class"](spec[1])
+    if k == "money":
+        return Money(spec[1])
     if k == "shape":          # ["shape", variant, items, fresh-class?]
         return shape_class(env, spec[1], spec[3])([mk_value(x, env) for x in spec[2]])
     if k == "shapeclass":     # the class object itself
@@ -535,6 +615,13 @@ def snap(o, env, memo=None, depth=0):
             return ("file", type(o).__name__, st, disk)
         if isinstance(o, (Vec, CM, Seq, Plain)):
             return (t.__name__,) + tuple(sorted(((rec(k), rec(v)) for k, v in vars(o).items()), key=repr))
+        if t in SUBCLASSED.values():
+            base = [b for b in (int, float, str, tuple, frozenset) if isinstance(o, b)][0]
+            return (t.__name__, rec(base(o)))
+        if isinstance(o, enum.IntEnum):
+            return ("Color", o.name) + tuple(sorted(((rec(k), rec(v)) for k, v in vars(o).items() if not k.startswith("_")), key=repr))
+        if t is Money:
+            return ("Money",) + tuple(sorted(((rec(k), rec(v)) for k, v in vars(o).items()), key=repr))
         if is_shape(o):
             return ("Shape", t.kind, ("made", t.made)) + tuple(sorted(((rec(k), rec(v)) for k, v in vars(o).items()), key=repr))
         if is_shape_class(o):
@@ -542,7 +629,7 @@ def snap(o, env, memo=None, depth=0):
         if isinstance(o, BaseException):
             return ("exception", t.__name__, rec(o.args))
         if isinstance(o, type):
-            return ("class", o.__module__, o.__qualname__)
+            return ("class", o.__module__, o.__qualname__, "the-importable-one" if importable(o) else "a-namesake-or-unimportable")
         if t.__name__ in ("builtin_function_or_method", "method", "method-wrapper", "method_descriptor", "wrapper_descriptor"):
             s = getattr(o, "__self__", None)
             return (t.__name__, getattr(o, "__name__", "?"), None if s is None or isinstance(s, type(sys)) else type(s).__name__)
@@ -675,6 +762,8 @@ def needs(op, twin_obj):
         return [("get", op[2])] if callable(d) else []
     if k in ("call", "hash", "repr", "str", "dir", "isinstance", "classof", "fetch"):
         return []
+    if k == "isinst":
+        return None
     if k == "cmp":
         return [("get", "__%s__" % op[2])]
     if k in UNARY_SPECIAL:
@@ -789,6 +878,7 @@ def perform(side, op, proxy):
                 raise EXC[op[2]]("raised inside the with block")
         return y, "remote"
     if k == "isinstance": return isinstance(x, CLASSES[op[2]]), "remote"
+    if k == "isinst": return isinstance(A(op[2]), x), "remote"        # the object in the slot as the second argument: isinstance(other, x)
     if k == "classof": return x.__class__, "local"
     if k == "func": return FUNCS[op[2]](x), ("remote" if op[2] in ELEMENT_FUNCS else "local")
     if k == "buffiter":
@@ -800,7 +890,7 @@ def perform(side, op, proxy):
 
 def outcome(side, op, proxy):
     try:
-        with C.time_limit(20):       # an operation that no longer returns is an observation ("Hang"), not a stuck check
+        with C.time_limit(60):       # (wall clock, returns early) an operation that no longer returns is an observation ("Hang"), not a stuck check
             v, how = perform(side, op, proxy)
     except RecursionError as e:      # depth of the interpreter stack is not part of the property (a remote hop costs frames)
         return ("exc", "RecursionError"), None, None, e
@@ -1067,21 +1157,66 @@ def builtin_cached(T):
     return "%s.%s" % (T.__module__, T.__name__) in netref.builtin_classes_cache
 
 
-def type_methods(obj):
-    """the callables found on the MRO of the object's type (for a class object: of its metaclass, then its own), outside LOCAL_ATTRS
-    -- what the proxy's class has to offer; None for the types whose netref class is the shared pre-generated one"""
-    if builtin_cached(type(obj)) or (isinstance(obj, type) and builtin_cached(obj)):
-        return None
+def class_table(cls_obj):
+    """the callables on the metaclass's MRO and then on the class's own, outside LOCAL_ATTRS: the proxy class of a class lent as a class"""
     attrs = {}
-    mros = list(reversed(type(obj).__mro__)) + (list(reversed(obj.__mro__)) if isinstance(obj, type) else [])
-    for k in mros:
+    for k in list(reversed(type(cls_obj).__mro__)) + list(reversed(cls_obj.__mro__)):
         attrs.update(k.__dict__)
     return sorted(n for n, a in attrs.items() if n not in netref.LOCAL_ATTRS and hasattr(a, "__call__"))
 
 
+def type_methods(obj):
+    """what the proxy's class has to offer: the callables found on the MRO of the object's type (for a class object: of its
+    metaclass, then its own), outside LOCAL_ATTRS.  The types in netref._builtin_types share one pre-generated proxy class between
+    the type and its instances: theirs is the table of the type lent as a class (so `type`'s methods are included: known finding
+    netref-class:methods-the-target-type-lacks)"""
+    if isinstance(obj, type):
+        return class_table(obj)
+    if builtin_cached(type(obj)):
+        return class_table(type(obj))
+    attrs = {}
+    for k in reversed(type(obj).__mro__):
+        attrs.update(k.__dict__)
+    return sorted(n for n, a in attrs.items() if n not in netref.LOCAL_ATTRS and hasattr(a, "__call__"))
+
+
+import types as _types
+EXPECTED_BUILTIN_TYPES = [
+    type, object, bool, complex, dict, float, int, list, slice, str, tuple, set, frozenset, BaseException, Exception, type(None),
+    _types.BuiltinFunctionType, _types.GeneratorType, _types.MethodType, _types.CodeType, _types.FrameType, _types.TracebackType,
+    _types.ModuleType, _types.FunctionType, type(int.__add__), type((1).__add__), type(iter([])), type(iter(())), type(iter(set())),
+    bytes, bytearray, type(iter(range(10))), memoryview]
+
+
+def check_builtin_classes(ctx):
+    """the proxy classes generated at import time (module level of netref.py): exactly the expected types, each with exactly the
+    table of that type lent as a class"""
+    # names as rpyc.lib.get_id_pack forms them for class objects; it files a class called "module" (types.ModuleType) under the name
+    # of ITS class, "builtins.type", so that entry -- written after the one for `type` itself -- is generated from ModuleType
+    want = {}
+    for T in EXPECTED_BUILTIN_TYPES:
+        want["builtins.type" if T.__name__ == "module" else "%s.%s" % (T.__module__, T.__name__)] = T
+    have = netref.builtin_classes_cache
+    ctx.model_traces += 1
+    if set(have) != set(want):
+        ctx.tie_broken("correspondence:builtin-classes", "pre-generated proxy classes differ from the expected list by %s" % sorted(set(have) ^ set(want)))
+    for name, T in want.items():
+        cls = have.get(name)
+        if cls is None:
+            continue
+        got = sorted(k for k in cls.__dict__ if k not in ("__slots__", "__class__", "__module__", "__doc__", "__dict__", "__weakref__") and k not in netref.LOCAL_ATTRS)
+        exp = class_table(T)
+        ctx.count("builtin-class-table-checked")
+        if got != exp:
+            ctx.tie_broken("correspondence:builtin-classes", "%s: proxy class offers %s beyond/short of the table of the type" % (name, short(sorted(set(got) ^ set(exp)), 200)))
+        desc = cls.__dict__.get("__class__")
+        if desc is None or getattr(desc, "instance", None) is not T:
+            ctx.tie_broken("correspondence:builtin-classes", "%s: the class descriptor does not name the type" % name)
+
+
 def type_tag(twin_obj):
     tn = type(twin_obj).__name__
-    if tn in ("list", "dict", "set", "bytearray", "deque", "Vec", "CM", "Seq", "Plain", "generator"):
+    if tn in ("list", "dict", "set", "bytearray", "deque", "Vec", "CM", "Seq", "Plain", "generator", "MyInt", "MyFloat", "MyStr", "MyTuple", "MyFset", "Color", "Money"):
         return tn
     if is_shape(twin_obj):
         return "Shape-" + type(twin_obj).kind
@@ -1104,6 +1239,19 @@ def beyond_ssize(v):
 
 
 FAMILIES = {
+    "class-query:namesake-on-the-callers-side":
+        "p.__class__ / isinstance(p, C): the proxy's class descriptor is whatever class the caller finds under the target's "
+        "module-qualified name, so a target whose class is a namesake (class factory, type(name, ...), re-definition, other version of "
+        "a module) is reported to be an instance of the caller's class",
+    "instancecheck:class-unknown-to-the-caller":
+        "isinstance(x, p) for a proxy p of a class the caller cannot find by name and an x of the caller's own: "
+        "AttributeError ('NoneType' object has no attribute 'instance') instead of an answer",
+    "operator:reflected-method-never-sees-the-target":
+        "x OP a with a value operand a: when the target's own special method declines (NotImplemented), the caller's interpreter "
+        "gives a's reflected method the proxy instead of the target, so MyInt(3) + 5.0 raises TypeError and MyInt(3) == 3.0 is False",
+    "c-level-type-check:value-operand-needs-a-real-instance":
+        "'x' + p, (1,) + p, int(p) for a target that is an instance of a str/tuple subclass: the value's C implementation accepts only real "
+        "instances of its own type and has no reflected method to fall back on",
     "getattr:failing-read-evaluated-twice":
         "an attribute read that fails with AttributeError on the target is sent twice (__getattribute__, then Python's fallback to "
         "__getattr__), so a getter with an effect runs twice",
@@ -1155,18 +1303,34 @@ def classify(op, rp, rt, twin_obj, methods=()):
         return "getattr:proxy-local-name"
     if k in ("getattr", "callm") and rp[0] == "state" and getter_fails_with_attribute_error(twin_obj, op[2]):
         return "getattr:failing-read-evaluated-twice"
+    if k in ("isinstance", "classof") and namesake_importable(T):
+        return "class-query:namesake-on-the-callers-side"
+    if k == "getattr" and op[2] == "__class__" and namesake_importable(T):
+        return "class-query:namesake-on-the-callers-side"
+    if k == "isinst" and isinstance(twin_obj, type) and not importable(twin_obj) and "imm" in op[2] and rp == ("exc", "builtins.AttributeError"):
+        return "instancecheck:class-unknown-to-the-caller"
     if k == "isinstance" and type(CLASSES[op[2]]) is not type:
         return "isinstance:abstract-base-class"
     if k in ("getitem", "setitem", "delitem") and "imm" in op[2] and beyond_ssize(mk_value(op[2], {})) and rp[0] == rt[0] == "exc":
         return "item-index-beyond-ssize_t:slot-wrapper-raises-OverflowError"
     if k in ("binop", "rbinop", "ibinop") and extra_methods(["__%s__" % op[2], "__r%s__" % op[2], "__%s__" % op[2][1:], "__i%s__" % op[2]]):
         return "netref-class:methods-the-target-type-lacks"
-    if isinstance(twin_obj, type) and extra_methods(specials_of(op)):
-        return "netref-class:methods-the-target-type-lacks"      # a class lent as a class: its proxy offers the class's instance-level special methods
     if k == "rbinop" and op[2] == "mod" and "imm" in op[3] and type(mk_value(op[3], {})) in (bytes, str) and has_special(T, "__getitem__"):
         return "netref-class:methods-the-target-type-lacks"      # C code takes the proxy for a mapping: its class defines __getitem__ in Python
+    if k == "ibinop" and "imm" in op[3] and type(mk_value(op[3], {})) in (str, bytes, tuple) and rt == ("exc", "builtins.TypeError") and rp[0] == "ok":
+        return "netref-class:methods-the-target-type-lacks"      # x *= seq: CPython's in-place slots of a heap type reject what x * seq accepts
+    if k in ("binop", "rbinop", "ibinop", "cmp") and first_method_declines(twin_obj, op):
+        if k == "ibinop" and type(mk_value(op[3], {})) in (str, bytes, tuple):
+            return "netref-class:methods-the-target-type-lacks"  # x *= "s": CPython's in-place slots of a heap type reject what x * "s" accepts
+        return "operator:reflected-method-never-sees-the-target"
+    if isinstance(twin_obj, (MyStr, MyTuple)) and ((k == "rbinop" and op[2] == "add" and "imm" in op[3]) or (k == "func" and op[2] in ("int", "float", "bytes", "bjoin"))):
+        return "c-level-type-check:value-operand-needs-a-real-instance"
+    if isinstance(twin_obj, type) and extra_methods(specials_of(op)):
+        return "netref-class:methods-the-target-type-lacks"      # a class lent as a class: its proxy offers the class's instance-level special methods
     if T is bytearray and ((k == "rbinop" and "imm" in op[3]) or (k == "func" and op[2] in ("bytes", "bjoin", "int", "float"))):
         return "buffer-protocol:target-memory-not-reachable"
+    if k == "func" and op[2] == "bjoin" and rp[0] == "exc" and rt[0] == "ok":
+        return "buffer-protocol:target-memory-not-reachable"     # b"".join(p): the items are bytearrays on the target's side
     if k == "buffiter" and not has_special(T, "__iter__") and has_special(T, "__getitem__"):
         return "buffiter:getitem-only-iterable"
     extra = ""
@@ -1240,7 +1404,7 @@ def gen_elem(r, depth):
 
 
 KINDS = ["list", "list", "dict", "dict", "set", "bytearray", "deque", "listiter", "dictiter", "gen", "file", "file", "vec", "vec", "vec",
-         "cm", "cm", "seq", "plain", "family", "family", "family"]
+         "cm", "cm", "seq", "plain", "family", "family", "family", "myint", "myint", "myfloat", "mystr", "mytuple", "myfset", "color", "money"]
 
 
 def gen_target(r, kind, depth=1):
@@ -1277,6 +1441,20 @@ def gen_target(r, kind, depth=1):
         return ["plain", gen_elem(r, depth), imm(gen_imm(r))]
     if kind == "family":
         return gen_family(r)
+    if kind == "myint":
+        return ["myint", imm(r.choice([0, 1, 3, -2, 7, 10, 40]))]
+    if kind == "myfloat":
+        return ["myfloat", imm(r.choice([0.0, 1.5, -2.25, 3.0, 40.0]))]
+    if kind == "mystr":
+        return ["mystr", imm(r.choice(["", "a", "ab", "hello", "x y", "é"]))]
+    if kind == "mytuple":
+        return ["mytuple", imm(tuple(r.choice([0, 1, 2, "a", 2.5]) for _ in range(r.choice([0, 1, 2, 3]))))]
+    if kind == "myfset":
+        return ["myfset", imm(frozenset(r.choice([0, 1, 2, 3, "a"]) for _ in range(r.choice([0, 1, 2, 3]))))]
+    if kind == "color":
+        return ["color", r.choice([1, 2, 7])]
+    if kind == "money":
+        return ["money", r.choice([0, 5, 100, -3])]
     raise ValueError(kind)
 
 
@@ -1353,7 +1531,7 @@ def gen_op(r, side, i):
                       "localname", "contains", "func", "func", "with", "call", "binop", "unop", "setmissing", "delmissing", "next", "getitem"])
         if k in ("repr", "str", "hash", "dir", "bool", "len", "iter", "classof", "next"):
             return [k, i]
-        if k == "isinstance": return ["isinstance", i, r.choice(ANY_CLASS)]
+        if k == "isinstance": return ["isinstance", i, r.choice(ANY_CLASS)] if r.random() < 0.85 else ["isinst", i, r.choice([I(5), {"slot": r.randrange(len(side.slots))}])]
         if k == "cmp": return ["cmp", i, r.choice(list(CMPS)), I(gen_imm(r, nan_ok=True))]
         if k == "cmpslot": return ["cmp", i, r.choice(list(CMPS)), {"slot": r.randrange(len(side.slots))}]
         if k == "missing": return ["getattr", i, r.choice(MISSING)]
@@ -1490,6 +1668,32 @@ def gen_op(r, side, i):
             lambda: ["next", i], lambda: ["next", i], lambda: ["next", i], lambda: ["iter", i], lambda: ["func", i, r.choice(["list", "tuple", "sum", "sorted", "next_default", "set", "max"])],
             lambda: ["buffiter", i, r.choice([1, 2, 3, 4, 10, 50]), r.choice([1, 2, 3, 10]), r.choice([1, 2, 7, 1000])], lambda: ["contains", i, I(v())],
         ])()
+    if number_like(o):
+        num = lambda: r.choice([0, 1, 2, 3, -1, 7, 2.5, 3.0, 0.5, 1.0, 2 + 0j, True, "s", None, (1,), 10**20])
+        arith = ["add", "sub", "mul", "truediv", "floordiv", "mod", "pow", "and", "or", "xor", "lshift", "rshift"]
+        return r.choice([
+            lambda: ["binop", i, r.choice(arith), I(num())], lambda: ["binop", i, r.choice(arith), I(num())], lambda: ["rbinop", i, r.choice(arith), I(num())],
+            lambda: ["rbinop", i, r.choice(arith), I(num())], lambda: ["cmp", i, r.choice(list(CMPS)), I(num())], lambda: ["cmp", i, r.choice(list(CMPS)), I(num())],
+            lambda: ["binop", i, r.choice(arith), {"slot": r.randrange(len(side.slots))}], lambda: ["cmp", i, r.choice(list(CMPS)), {"slot": r.randrange(len(side.slots))}],
+            lambda: ["ibinop", i, r.choice(["iadd", "imul", "isub"]), I(num())], lambda: ["unop", i, r.choice(list(UNOPS))], lambda: ["hash", i], lambda: ["repr", i], lambda: ["str", i],
+            lambda: ["bool", i], lambda: ["func", i, r.choice(["int", "float", "index", "format"])], lambda: M("bit_length"), lambda: M("is_integer"), lambda: M("conjugate"),
+            lambda: ["getattr", i, r.choice(["real", "imag", "numerator", "name", "value", "cents", "nope"])], lambda: ["isinstance", i, r.choice(["int", "float", "MyInt", "Color", "Number", "str"])],
+            lambda: ["classof", i], lambda: ["setattr", i, "tag", I(1)],
+        ])()
+    if T in (MyStr, MyTuple, MyFset):
+        n = len(o)
+        other = {MyStr: lambda: r.choice(["", "a", "b", "zz", 3, b"a", None]), MyTuple: lambda: r.choice([(), (1,), (0, 1), "a", 2, [1] and (2, "a")]),
+                 MyFset: lambda: r.choice([frozenset(), frozenset([1]), frozenset([1, 2, "a"]), 3, (1,)])}[T]
+        ops = {MyStr: ["add", "mul", "mod"], MyTuple: ["add", "mul"], MyFset: ["or", "and", "sub", "xor"]}[T]
+        pick = lambda: (r.choice([0, 1, 2, 3, -1]) if r.random() < 0.4 and T is not MyFset else other())
+        return r.choice([
+            lambda: ["binop", i, r.choice(ops), I(pick())], lambda: ["rbinop", i, r.choice(ops), I(pick())], lambda: ["cmp", i, r.choice(list(CMPS)), I(other())],
+            lambda: ["cmp", i, r.choice(list(CMPS)), I(other())], lambda: ["contains", i, I(r.choice(["a", 1, 0, "ab", 2.5]))], lambda: ["len", i], lambda: ["iter", i], lambda: ["hash", i],
+            lambda: ["bool", i], lambda: ["repr", i], lambda: ["str", i], lambda: ["getitem", i, I(idx_for(r, n))], lambda: ["getitem", i, I(slice_for(r, n))],
+            lambda: ["func", i, r.choice(["list", "sorted", "tuple", "set", "max", "join", "format", "reversed"])], lambda: M("upper"), lambda: M("count", r.choice(["a", 1])),
+            lambda: M("index", r.choice(["a", 1, 0])), lambda: M("union", frozenset([9])), lambda: M("startswith", "a"), lambda: ["isinstance", i, r.choice(["str", "tuple", "frozenset", "MyStr", "Sequence"])],
+            lambda: ["classof", i], lambda: ["buffiter", i, 2, 2, 4],
+        ])()
     if is_shape(o) or is_shape_class(o):
         n = 3 if is_shape_class(o) else len(o.items)
         few = lambda: [I(v()) for _ in range(r.choice([0, 1, 2]))]
@@ -1500,6 +1704,7 @@ def gen_op(r, side, i):
             lambda: ["func", i, r.choice(["list", "sorted", "tuple", "sum", "max", "set", "enumerate"])], lambda: ["buffiter", i, r.choice([1, 2, 10]), r.choice([1, 2]), r.choice([1, 3, 1000])],
             lambda: ["getattr", i, r.choice(["kind", "made", "items", "log", "describe", "nope"])], lambda: ["repr", i], lambda: ["str", i], lambda: ["hash", i], lambda: ["dir", i],
             lambda: ["classof", i], lambda: ["cmp", i, r.choice(["eq", "ne"]), {"slot": r.randrange(len(side.slots))}], lambda: ["next", i],
+            lambda: ["isinst", i, {"slot": r.randrange(len(side.slots))}], lambda: ["isinst", i, {"slot": r.randrange(len(side.slots))}], lambda: ["isinst", i, I(r.choice([5, "a", None, (1,)]))],
             lambda: M("make", *[v() for _ in range(r.choice([0, 1, 3]))]),
         ]
         if is_shape(o):
@@ -1528,6 +1733,34 @@ def plain_method(T, name):
         if name in k.__dict__:
             return isinstance(k.__dict__[name], (types.FunctionType, types.MethodDescriptorType, types.WrapperDescriptorType))
     return False
+
+
+def number_like(o):
+    return isinstance(o, (MyInt, MyFloat, Money)) or isinstance(o, enum.IntEnum)
+
+
+def value_like(o):
+    """targets whose operators are pure functions of their value (safe to ask the twin twice)"""
+    return number_like(o) or isinstance(o, (MyStr, MyTuple, MyFset))
+
+
+def first_method_declines(twin_obj, op):
+    """does the special method Python tries first for this operator on the target return NotImplemented for this operand?"""
+    k, T = op[0], type(twin_obj)
+    if not value_like(twin_obj) or "imm" not in op[3]:
+        return False
+    name = op[2]
+    if k == "cmp": d = "__%s__" % name
+    elif k == "binop": d = "__%s__" % name
+    elif k == "rbinop": d = "__r%s__" % name
+    elif k == "ibinop": d = "__%s__" % name if has_special(T, "__%s__" % name) else "__%s__" % name[1:]
+    else: return False
+    if not has_special(T, d):
+        return False
+    try:
+        return getattr(T, d)(twin_obj, mk_value(op[3], {})) is NotImplemented
+    except Exception:
+        return False
 
 
 def tame(r, op):
@@ -1601,10 +1834,11 @@ def gen_case(r, cfg, nops=25, kind=None):
 # ------------------------------------------------------------------------------------------------ correspondence with the model
 
 def tree_facts():
-    """the two facts of the tree the theorems are conditional on, re-translated from C.REPO (coq/gen is shared)"""
+    """the facts of the tree the theorems are conditional on, re-translated from C.REPO (coq/gen is shared)"""
     from tools.pygen import netref as T
     vals = {it.name: it.coq_term for it in T.translate(C.REPO) if it.kind == "typed"}
     return {"getattr_repeats": vals.get("getattr_repeats_request") == "true", "ctxexit_delivers": vals.get("ctxexit_delivers") == "true",
+            "reflects": vals.get("reflects") == "true",
             "translated": sorted(vals)}
 
 
@@ -1676,8 +1910,9 @@ def correspond(ctx, model, facts, records):
             continue
         for j, (msx, operands, which) in enumerate(mo):
             ms = rec["methods"] if which == "target" else ["__call__"]
-            truthy0 = 1
-            queries.append(["op", [CFG_IDS[rec["cfg"]], int(facts["getattr_repeats"]), int(facts["ctxexit_delivers"])], ms, msx, truthy0])
+            byval0 = int(bool(operands) and "imm" in operands[0])
+            queries.append(["op", [CFG_IDS[rec["cfg"]], int(facts["getattr_repeats"]), int(facts["ctxexit_delivers"]), int(facts.get("reflects", False))],
+                            ms, msx, [1, byval0]])
             index.append((ri, j, operands, which))
     # buffered iteration: the schedule
     bq, bidx = [], []
@@ -1700,12 +1935,13 @@ def correspond(ctx, model, facts, records):
                 ctx.tie_broken("correspondence:model-input", "op %r" % (op,))
                 unmodelled = True
                 break
-            routed, fb, served, direct_act, forwarded, wf, perm_direct, perm_served = out
+            routed, fb, served, direct_act, forwarded, wf, perm_direct, perm_served, spec_reflect = out
             kind = routed[0].decode()
             ops_c = [op_operand_canon(s) for s in operands]
             if forwarded and wf and kind == "send":
                 # T1 on this instance: the handler's action is the operation, its checks are the operation's
-                if served[0] != b"ok" or (served[1][0] != direct_act and not (op[0] == "with")) or bool(perm_served) != bool(perm_direct):
+                if served[0] != b"ok" or (served[1][0] != direct_act and not (op[0] == "with")) or bool(perm_served) != bool(perm_direct) \
+                        or (served[0] == b"ok" and served[1][2] != spec_reflect):
                     if not (msx_is_exit(direct_act) and not facts["ctxexit_delivers"]):
                         ctx.tie_broken("correspondence:model-routing-identity", "op %r: served %r direct %r" % (op, served, direct_act))
             if which == "target":
@@ -1800,7 +2036,7 @@ def check_buffiter_params(ctx, model, r, n_cases):
             p = w.ca._unbox(w.cb._box(target))
             del w.tap.reqs[:]
             try:
-                with C.time_limit(20):
+                with C.time_limit(60):
                     got = ("ok", list(buffiter(p, chunk, maxc, factor)))
             except C.Hang:
                 got = ("hang", len(w.tap.reqs))
@@ -1817,7 +2053,7 @@ def check_buffiter_params(ctx, model, r, n_cases):
                 ctx.violation("buffiter:items-differ", case, observed=short(got), expected="all %d items in order, iterator exhausted" % n,
                               what="buffiter(chunk=%d, factor=%d, max_chunk=%d) over %d items" % (chunk, factor, maxc, n))
             if got[0] == "hang":
-                ctx.violation("buffiter:does-not-terminate", case, observed="%d requests sent and still running after 20 s" % got[1], expected="returns or raises",
+                ctx.violation("buffiter:does-not-terminate", case, observed="%d requests sent and still running after 60 s" % got[1], expected="returns or raises",
                               what="buffiter(chunk=%d, factor=%d, max_chunk=%d) over %d items never returns" % (chunk, factor, maxc, n))
                 w.close()
                 w = World("classic", ["list", []])
@@ -1898,6 +2134,9 @@ def family_corpus():
                ["callm", 3, "make", [I_(9)], []], ["len", 6], ["getattr", 0, "made"], ["getattr", 3, "made"], ["getattr", 0, "kind"], ["getattr", 1, "__name__"],
                ["cmp", 0, "eq", {"slot": 3}], ["cmp", 0, "eq", {"slot": 0}], ["repr", 1], ["len", 0], ["bool", 1]]
         out.append({"cfg": cfg, "target": ["multi", roots], "ops": ops})
+        out.append({"cfg": cfg, "target": ["multi", [["color", 2], ["shapeclass", "bag", False], ["shape", "bag", [I_(1)], False], ["shape", "row", [], False], ["list", []]]],
+                    "ops": [["isinstance", 0, "Color"], ["classof", 0], ["isinstance", 0, "int"], ["isinst", 1, {"slot": 2}], ["isinst", 1, {"slot": 3}],
+                            ["isinst", 1, {"slot": 4}], ["isinst", 1, {"slot": 1}], ["isinst", 2, {"slot": 2}], ["isinst", 1, I_(5)], ["classof", 2], ["isinstance", 4, "list"]]})
     return out
 
 
@@ -1943,6 +2182,7 @@ def run(ctx):
     for i in range(n_seq):
         cfg = r.choice(["classic", "classic", "public", "default"])
         cases.append(gen_case(r, cfg))
+    check_builtin_classes(ctx)
     for i in range(0, len(cases), 500):
         check_cases(ctx, model, facts, cases[i:i + 500])
     check_buffiter_params(ctx, model, r, n_buff)
